@@ -294,7 +294,7 @@ class Check(object):
         self.phase("settle-abnormal")
 
         # determinism: double-run a few seeds in this very check
-        ndet = min(8, len(done_specs))
+        ndet = min(getattr(eng, "DET_RUNS", 8), len(done_specs))
         det_idx = [int(i * len(done_specs) / ndet) for i in range(ndet)] if ndet else []
         det_again = self.pool.map([done_specs[i] for i in det_idx], chunk=1)
         det_bad = []
@@ -413,7 +413,7 @@ class Check(object):
             "known_findings_tallied": dict(tallied),
             "fixed_entries": self.fixed,
             "real_vs_stub": getattr(eng, "REAL_VS_STUB", {}),
-            "determinism_double_runs": {"checked": min(8, len(specs)), "mismatches": len(det_bad)},
+            "determinism_double_runs": {"checked": min(getattr(eng, "DET_RUNS", 8), len(specs)), "mismatches": len(det_bad)},
             "harness_errors": len(herr),
             "messages": self.messages[:20],
             "phase_wall_s": self.phases,
